@@ -14,6 +14,15 @@ ttl/4, explicit `RenewLockLease`), so its lease does not expire on its own (`hel
 injected KV failure (recorded per instance) excuses the loss.
 Explicit renewals: `renewing i key dur` … `renewedlock i key dur => ok|notholder|expired|err` bracket a
 `RenewLockLease(key, dur)` call; the KV renewal it makes is replayed as the model's `renewLock i dur ttl`.
+Renewal goroutines and acquiring contexts (model part 3): the replay runs on `RSt` — a ticker renewal
+(`kvrenew` outside a `renewing … renewedlock` bracket) is the model's "ticker period elapses" and is only possible
+while the model's goroutine of that instance runs (DIFF otherwise); a failed one (KV refusal or injected fault) ends
+the goroutine. `ctxdone i key kind t` says that the context instance `i` called `Lock(ctx, key)` with has ended
+(`cancel` = cancelled by the caller after Lock returned, `timeout` = its deadline passed, `parent` = an ancestor was
+cancelled, `late` = cancelled after Unlock): the model's `ctxDone i`, which changes nothing — the holder still holds.
+The SPEC rule above is unchanged and says so: the end of the acquiring context is not an unlock, not a lease
+expiry and not a KV failure. `unlocking` additionally compares with the model: a holder whose goroutine runs in the
+model and whom the KV never failed cannot find its lease run out at its own Unlock (DIFF).
 -/
 namespace Specter.C49
 open Specter.Util
@@ -28,11 +37,12 @@ structure OEntry where
   cfgTtl : Nat := 0            -- lease TTL this instance acquires with (its configured `LeaseTTL`), 0 = not seen yet
   expl : Option Int := none    -- a `RenewLockLease(key, dur)` call is in progress (`renewing` seen): its `dur`
   explRes : Option String := none  -- what the KV renewal made by that call returned
+  acqDone : Option (String × Nat) := none  -- the context this instance's `Lock` was called with ended (kind, when), since it locked
 
 structure DState where
   kv : Kv := []
   hist : List Op := []
-  locks : List (String × LockSt) := []
+  locks : List (String × RSt) := []
   orc : List OEntry := []
 
 def hexPath (s : String) : Option Path := (hexToBytes s).map (·.map Char.ofNat)
@@ -53,8 +63,8 @@ def renderOut : Out → String
   | .size n => s!"size:{n}"
   | .keys ks => renderKeys ks
 
-def lockOf (d : DState) (k : String) : LockSt := (d.locks.lookup k).getD {}
-def setLock (d : DState) (k : String) (s : LockSt) : DState :=
+def lockOf (d : DState) (k : String) : RSt := (d.locks.lookup k).getD {}
+def setLock (d : DState) (k : String) (s : RSt) : DState :=
   { d with locks := (k, s) :: d.locks.filter (·.1 != k) }
 
 def orcOf (d : DState) (k : String) (i : Nat) : OEntry :=
@@ -62,7 +72,7 @@ def orcOf (d : DState) (k : String) (i : Nat) : OEntry :=
 def setOrc (d : DState) (e : OEntry) : DState :=
   { d with orc := e :: d.orc.filter (fun x => !(x.key == e.key && x.inst == e.inst)) }
 
-def tickTo (s : LockSt) (t : Nat) : LockSt := if t > s.now then (lstep s (.tick (t - s.now))).1 else s
+def tickTo (s : RSt) (t : Nat) : RSt := if t > s.lock.now then (rstep s (.ev (.tick (t - s.lock.now)))).1 else s
 
 def renderL : LOut → String
   | .none => "none"
@@ -135,13 +145,13 @@ def dstep (d : DState) (toks : List String) (rhs : String) : DState × Verdict :
           let now := tok - td
           if tok < td ∨ now < tb ∨ ta < now then (d, .diff s!"token {tok} is not clock+ttl within the call window")
           else
-            let (s', out) := lstep (tickTo s now) (.lockTry i ttl)
+            let (s', out) := rstep (tickTo s now) (.ev (.lockTry i ttl))
             let e := orcOf d key i
-            let d' := setOrc (setLock d key s') { e with lastTok := tok, cfgTtl := ttl }
+            let d' := setOrc (setLock d key s') { e with lastTok := tok, cfgTtl := ttl, acqDone := none }
             if out = .acquired tok then (d', .ok) else (d', .diff (renderL out))
       | none =>
         -- refused: admissible iff the model refuses at the start of the window (conflict is monotone in time)
-        let (s', out) := lstep (tickTo s tb) (.lockTry i ttl)
+        let (s', out) := rstep (tickTo s tb) (.ev (.lockTry i ttl))
         if renderL out = rhs then (setLock d key s', .ok) else (setLock d key (tickTo s tb), .diff (renderL out))
     | _, _, _, _ => (d, .bad "kvacq args")
   | ["kvrenew", i, key, ttl, prev, tb, ta] =>
@@ -152,12 +162,19 @@ def dstep (d : DState) (toks : List String) (rhs : String) : DState × Verdict :
       -- the result an explicit `RenewLockLease` in progress will report
       let noted (r : String) : OEntry := { e with expl := none, explRes := if e.expl.isSome then some r else e.explRes }
       if rhs = "injected" then    -- fault injected by the wrapper before the KV was called: the KV failed this holder
-        (setOrc d { noted "err" with fault := true }, .ok)
-      else if s.holder i ≠ some prev then
-        (setOrc d (noted (if (parseTok rhs).isSome then "ok" else rhs)), .diff s!"model holder token {repr (s.holder i)} ≠ {prev}")
+        if e.expl.isSome then (setOrc d { noted "err" with fault := true }, .ok)   -- the error goes to the caller of RenewLockLease
+        else
+          -- the ticker's renewal failed: the goroutine returns (model `kvFault i`)
+          let d' := setOrc (setLock d key (rstep s (.kvFault i)).1) { noted "err" with fault := true }
+          if s.tickers.contains i then (d', .ok)
+          else (d', .diff s!"model: the renewal goroutine of instance {i} is not running, its ticker makes no KV call")
+      else if s.lock.holder i ≠ some prev then
+        (setOrc d (noted (if (parseTok rhs).isSome then "ok" else rhs)), .diff s!"model holder token {repr (s.lock.holder i)} ≠ {prev}")
+      else if e.expl.isNone && !s.tickers.contains i then
+        (setOrc d (noted rhs), .diff s!"model: the renewal goroutine of instance {i} is not running (it ended at its Unlock or at its first failed renewal), its ticker makes no KV call")
       else
         -- ticker renewal, or the renewal made by `RenewLockLease(key, dur)`: both ask for the CONFIGURED ttl
-        let ev : Ev := match e.expl with | some dur => .renewLock i dur ttl | none => .renew i ttl
+        let ev : REv := .ev (match e.expl with | some dur => .renewLock i dur ttl | none => .renew i ttl)
         let ttlOk := e.cfgTtl = 0 ∨ ttl = e.cfgTtl
         let fin (v : Verdict) : Verdict :=
           if ttlOk then v else .diff s!"the storage renews with its configured lease TTL {e.cfgTtl}, the KV was asked for {ttl}"
@@ -172,15 +189,15 @@ def dstep (d : DState) (toks : List String) (rhs : String) : DState × Verdict :
             else
               -- Renew reads the clock twice (check, then new token): check at the window start, token at now2;
               -- two successive model renewals are exactly that
-              let (s1, o1) := lstep (tickTo s tb) ev
+              let (s1, o1) := rstep (tickTo s tb) ev
               match o1 with
               | .renewed _ =>
-                let (s2, o2) := lstep (tickTo s1 now2) ev
+                let (s2, o2) := rstep (tickTo s1 now2) ev
                 let d' := setOrc (setLock d key s2) { noted "ok" with lastTok := tok }
                 if o2 = .renewed tok then (d', fin .ok) else (d', .diff (renderL o2))
               | o => (setOrc (setLock d key s1) { noted "ok" with lastTok := tok }, .diff (renderL o))
         | none =>
-          let (s', out) := lstep (tickTo s ta) ev
+          let (s', out) := rstep (tickTo s ta) ev
           let d' := setOrc (setLock d key s') (noted rhs)
           if renderL out = rhs then (d', fin .ok) else (d', .diff (renderL out))
     | _, _, _, _, _ => (d, .bad "kvrenew args")
@@ -188,9 +205,9 @@ def dstep (d : DState) (toks : List String) (rhs : String) : DState × Verdict :
     match i.toNat?, tok.toNat?, tb.toNat? with
     | some i, some tok, some tb =>
       let s := tickTo (lockOf d key) tb
-      if s.holder i ≠ some tok then (d, .diff s!"model holder token {repr (s.holder i)} ≠ released {tok}")
+      if s.lock.holder i ≠ some tok then (d, .diff s!"model holder token {repr (s.lock.holder i)} ≠ released {tok}")
       else
-        let (s', out) := lstep s (.unlock i)
+        let (s', out) := rstep s (.ev (.unlock i))
         let e := orcOf d key i
         let d' := setOrc (setLock d key s') { e with rel := some rhs }
         if renderL out = rhs then (d', .ok) else (d', .diff (renderL out))
@@ -208,16 +225,42 @@ def dstep (d : DState) (toks : List String) (rhs : String) : DState × Verdict :
         let lost := d.orc.find? (fun e => e.key == key && e.inst != j && e.holding && !e.fault)
         let e := orcOf d key j
         let d' := setOrc d { e with holding := true }
+        -- what became of the context the holder called `Lock` with is reported, it never excuses anything
+        let ctxNote (c : OEntry) : String := match c.acqDone with
+          | some (kind, td) => s!"; the context its Lock was called with ended at {td} ({kind}): not an unlock"
+          | none => ""
         match clash, lost with
-        | some c, _ => (d', .spec s!"instance {j} obtained the lock at {t} while instance {c.inst} holds it with lease until {c.lastTok}")
-        | none, some c => (d', .spec s!"instance {j} obtained the lock at {t} while instance {c.inst} still holds it (locked, never unlocked, no KV failure): its lease was not kept alive and ran out at {c.lastTok}")
+        | some c, _ => (d', .spec s!"instance {j} obtained the lock at {t} while instance {c.inst} holds it with lease until {c.lastTok}{ctxNote c}")
+        | none, some c => (d', .spec s!"instance {j} obtained the lock at {t} while instance {c.inst} still holds it (locked, never unlocked, no KV failure): its lease was not kept alive and ran out at {c.lastTok}{ctxNote c}")
         | none, none =>
-          if ((lockOf d key).holder j).isNone then (d', .diff "model: not a holder") else (d', .ok)
+          let m := lockOf d key
+          if (m.lock.holder j).isNone then (d', .diff "model: not a holder")
+          else if !m.tickers.contains j then (d', .diff "model: Lock starts the renewal goroutine")
+          else (d', .ok)
     | _, _ => (d, .bad "locked args")
-  | ["unlocking", i, key, _t] =>
-    match i.toNat? with
-    | some i => let e := orcOf d key i; (setOrc d { e with holding := false, rel := none, fault := false }, .ok)
-    | none => (d, .bad "unlocking args")
+  | ["unlocking", i, key, t] =>
+    match i.toNat?, t.toNat? with
+    | some i, some t =>
+      let e := orcOf d key i
+      let d' := setOrc d { e with holding := false, rel := none, fault := false }
+      -- model: the goroutine of a holder runs until its Unlock or its first failed renewal and renews every ttl/4
+      if e.holding && !e.fault && (lockOf d key).tickers.contains i && e.lastTok < t then
+        (d', .diff s!"model: the renewal goroutine of instance {i} runs (no Unlock, no failed renewal) and keeps the lease alive; observed: its lease ran out at {e.lastTok}, before its Unlock at {t}")
+      else (d', .ok)
+    | _, _ => (d, .bad "unlocking args")
+  -- ---- the context `Lock(ctx, key)` was called with has ended ----
+  | ["ctxdone", i, key, kind, t] =>
+    match i.toNat?, t.toNat? with
+    | some i, some t =>
+      if !(kind = "cancel" || kind = "timeout" || kind = "parent" || kind = "late") then (d, .bad "ctxdone kind") else
+      let s := tickTo (lockOf d key) t
+      let (s', _) := rstep s (.ctxDone i)
+      let e := orcOf d key i
+      let d' := setOrc (setLock d key s') { e with acqDone := if e.holding || (s.lock.holder i).isSome then some (kind, t) else e.acqDone }
+      -- nothing to compare on this line itself: the call has no result; the model keeps holder and goroutine
+      if s'.tickers.contains i = s.tickers.contains i && s'.lock.holder i = s.lock.holder i then (d', .ok)
+      else (d', .diff "model: the end of the acquiring context changes nothing")
+    | _, _ => (d, .bad "ctxdone args")
   -- ---- explicit `RenewLockLease(key, dur)` ----
   | ["renewing", i, key, dur, _t] =>
     match i.toNat?, dur.toInt? with
@@ -232,7 +275,7 @@ def dstep (d : DState) (toks : List String) (rhs : String) : DState × Verdict :
       | some r => if r = rhs then (d1, .ok) else (d1, .diff r)    -- the error of the KV renewal, nil when it succeeded
       | none =>
         -- no KV call was made: only for an instance that is not a holder
-        let (_, out) := lstep (tickTo (lockOf d key) t) (.renewLock i dur e.cfgTtl)
+        let (_, out) := rstep (tickTo (lockOf d key) t) (.ev (.renewLock i dur e.cfgTtl))
         if out = .notHolder then (if rhs = "notholder" then (d1, .ok) else (d1, .diff "notholder"))
         else (d1, .diff "model: RenewLockLease of a holder renews the lease in the KV")
     | _, _, _ => (d, .bad "renewedlock args")
@@ -242,7 +285,7 @@ def dstep (d : DState) (toks : List String) (rhs : String) : DState × Verdict :
       let e := orcOf d key i
       let d1 := setOrc d { e with rel := none }
       if rhs = "notholder" then
-        let (s', out) := lstep (tickTo (lockOf d key) t) (.unlock i)
+        let (s', out) := rstep (tickTo (lockOf d key) t) (.ev (.unlock i))
         if out = .notHolder then (setLock d1 key s', .ok) else (setLock d1 key s', .diff (renderL out))
       else
         match e.rel with
